@@ -83,6 +83,101 @@ def mangle_private_names(root: AST) -> None:
             stack.append((sub_node, class_name))
 
 
+_supported_stmts: tuple[type[stmt], ...] = (
+    Expr,
+    If,
+    While,
+    For,
+    Break,
+    Continue,
+    Pass,
+    Assign,
+    AnnAssign,
+    AugAssign,
+    FunctionDef,
+    Return,
+    Global,
+    Nonlocal,
+    ClassDef,
+    Import,
+    ImportFrom,
+)
+
+
+def validate(root: Module) -> None:
+    """
+    Check the whole ast before the converting.
+    Raise an error if there is a node which is not able to be converted,
+    wherever the node is (including the nodes which never run,
+    they are not checked by the converter because they are removed).
+    """
+
+    def error(node: AST, msg: str, err_type: type[Exception] = RuntimeError):
+        return err_type(ast_debug_info(node) + msg)  # type: ignore
+
+    def check_target(target: AST):
+        targets = [target]
+        while targets:
+            target = targets.pop()
+            if isinstance(target, Starred):
+                target = target.value
+            if isinstance(target, (Tuple, List)):
+                if sum(isinstance(i, Starred) for i in target.elts) > 1:
+                    raise error(
+                        target, "multiple starred expressions in assignment", SyntaxError
+                    )
+                targets.extend(target.elts)
+
+    # (node, is inside a loop, is inside a function)
+    stack: list[tuple[AST, bool, bool]] = [(root, False, False)]
+    while stack:
+        node, in_loop, in_func = stack.pop()
+        if isinstance(node, stmt) and not isinstance(node, _supported_stmts):
+            raise error(node, f"Unable to convert node '{type(node).__name__}'")
+        if isinstance(node, (Yield, YieldFrom, Await)):
+            raise error(node, f"Unable to convert node '{type(node).__name__}'")
+        if isinstance(node, comprehension) and node.is_async:
+            raise error(node.target, "Unable to convert asynchronous comprehension")
+        if isinstance(node, ImportFrom) and any(i.name == "*" for i in node.names):
+            raise error(node, "Unable to convert 'from ... import *'")
+        if isinstance(node, Break) and not in_loop:
+            raise error(node, "'break' is not inside a loop", SyntaxError)
+        if isinstance(node, Continue) and not in_loop:
+            raise error(node, "'continue' is not inside a loop", SyntaxError)
+        if isinstance(node, Return) and not in_func:
+            raise error(node, "'return' outside function", SyntaxError)
+
+        if isinstance(node, Assign):
+            for target in node.targets:
+                check_target(target)
+        elif isinstance(node, (For, comprehension)):
+            check_target(node.target)
+
+        if isinstance(node, (For, While)):
+            for sub_node in iter_child_nodes(node):
+                # the `else` branch of a loop is not inside the loop
+                stack.append((sub_node, in_loop or sub_node in node.body, in_func))
+        elif isinstance(node, FunctionDef):
+            for sub_node in iter_child_nodes(node):
+                # decorators and default values are in the outer scope
+                if sub_node in node.body:
+                    stack.append((sub_node, False, True))
+                else:
+                    stack.append((sub_node, in_loop, in_func))
+        elif isinstance(node, Lambda):
+            stack.append((node.args, in_loop, in_func))
+            stack.append((node.body, False, True))
+        elif isinstance(node, ClassDef):
+            for sub_node in iter_child_nodes(node):
+                if sub_node in node.body:
+                    stack.append((sub_node, False, False))
+                else:
+                    stack.append((sub_node, in_loop, in_func))
+        else:
+            for sub_node in iter_child_nodes(node):
+                stack.append((sub_node, in_loop, in_func))
+
+
 def convert_slice(_slice: Slice) -> Call:
     """
     Convert slice expt to a call of slice function
